@@ -46,6 +46,26 @@ func newReport(prop, tier string) *Report {
 		floors: map[string]int{}, counts: map[string]int{}}
 }
 
+// shareAs runs a rule set of another property into a scratch report and takes over the obligations whose rule name
+// starts with from, renamed to start with to: the same clause is a necessary condition of this property as well.
+func shareAs(r *Report, from, to string, run func(sub *Report)) {
+	sub := newReport(r.Prop, r.Tier)
+	sub.Config = r.Config
+	run(sub)
+	for _, o := range sub.Obls {
+		if o.Rule == from || strings.HasPrefix(o.Rule, from+".") {
+			nr := to + strings.TrimPrefix(o.Rule, from)
+			o.Key = strings.Replace(o.Key, o.Rule, nr, 1)
+			o.Rule = nr
+			r.add(o)
+		}
+	}
+	r.Evaluations += sub.Evaluations
+	for f := range sub.Funcs {
+		r.Funcs[f] = true
+	}
+}
+
 func (r *Report) add(o *Obligation) *Obligation {
 	o.Config = r.Config
 	r.Obls = append(r.Obls, o)
